@@ -47,7 +47,8 @@ For each mutant k = 1,2,3 write into `{wt}/mut_out/m<k>/`:
 * `meta.json` -- {{"property": "{pid}", "title": "...", "what_it_breaks": "...", "needs_to_manifest": "...", "files_changed": [...],
   "ran": ["commands you ran and their outcome, for unchanged and mutated tree"]}}.
 Verify all of this yourself: run the demo on the unchanged tree (passes) and on the mutated tree (fails), and the full suite on the mutated
-tree (85 pass / 1 known failure). Reset the worktree between mutants with `git checkout -- . && git clean -fd tests/` (keep `mut_out/`).
+tree (85 pass / 1 known failure). Reset the worktree between mutants with `git checkout -- . && git clean -fd tests/` (keep `mut_out/`). NEVER use `git stash`:
+the stash is shared by all worktrees of the repository and other engineers work in sibling worktrees; keep your changes as patch files instead.
 At the end leave the worktree source unchanged (`git status` shows only `mut_out/`), delete `{wt}/target` to free disk, and reply with a
 short summary (one paragraph per mutant).
 """
